@@ -110,6 +110,9 @@ def callee_verdict(krate, name, resolved):
         for p in FORBIDDEN_PREFIXES:
             if n.startswith(p):
                 return False, 'impure or sharing callee (%s)' % n
+            # trait methods resolve to `<SelfTy as Trait>::method`: the forbidden type then sits inside the angle brackets
+            if n.startswith('<') and (p + '::' in n or p + '<' in n or p + ' ' in n or ('<' + p) in n) and p not in ('rand',):
+                return False, 'impure or sharing callee (%s)' % n
         for p in FORBIDDEN_SUBSTRINGS:
             if p in n:
                 return False, 'callee observes an address or the caller location (%s)' % n
@@ -215,6 +218,23 @@ def run_c17(F, R):
                 if sty.startswith(('*const ', '*mut ', '&', 'fn(', 'for<', 'unsafe fn', 'extern ')) or ' {' in sty or sty.startswith('fn '):
                     R.violation('T7-addresses', '%s:pointer-cast' % canon(f.defpath),
                                 'cast of %s to %s: an address (of a value or a function) becomes data' % (sty, n.get('ty')), _loc(n))
+    # T1b: no local, temporary or intermediate value of a forbidden type either (a per-instance HashSet iterated inside
+    # update() makes the result depend on RandomState even though no field has that type)
+    forbidden_types = list(FORBIDDEN_HINT) + ['std::collections::hash', 'std::sync::atomic', 'std::thread', 'std::time', 'std::rc::Weak', 'std::sync::Weak',
+                                              'std::hash::RandomState', 'std::collections::hash_map', 'std::collections::hash_set']
+    seen_bad = {}
+    for f in F.fns:
+        if f.derived:
+            continue
+        for n in _walk(f.raw['body']):
+            if isinstance(n, dict) and n.get('ty'):
+                ty = str(n['ty'])
+                for ft in forbidden_types:
+                    if ft in ty:
+                        seen_bad.setdefault((canon(f.defpath), ft), _loc(n))
+    for (fn_, ft), where in sorted(seen_bad.items()):
+        R.violation('T1-fields', '%s:local:%s' % (fn_, ft.split('::')[-1]),
+                    'a value of type %s is used inside %s: %s' % (ft, fn_, FORBIDDEN_HINT.get(ft, 'shared, interior-mutable or non-deterministic state')), where)
     R.ob('T7-addresses', 'crate', True, '%d expressions (%d casts) in %d local bodies inspected: none has raw-pointer type and no cast starts from a pointer, reference or fn item' % (nexpr, ncast, len(F.fns)))
     R.extra['expressions_inspected'] = nexpr
     # T5: trait shape
